@@ -163,8 +163,9 @@ def layers_share_one_index(c):
         single = c.call(msl.scatcoeffs_multi, A([m]), A([xs[-1]]))
         homogeneous = c.call(mlib.scatcoeffs, m, xs[-1], NSTOP)
     _no_division_by_zero(c, layered, single, homogeneous)
-    c.ensures("layered-with-one-index-equals-single-layer", _same_coefficients(c, layered, single))
-    c.ensures("single-layer-equals-homogeneous-sphere-code", _same_coefficients(c, single, homogeneous))
+    with sym.frac_budget(150):
+        c.ensures("layered-with-one-index-equals-single-layer", _same_coefficients(c, layered, single))
+        c.ensures("single-layer-equals-homogeneous-sphere-code", _same_coefficients(c, single, homogeneous))
     c.canary("inner-radius-irrelevant-for-different-indices", c.eq(np.asarray(layered, dtype=object).reshape(-1)[0] if c.symbolic else 0, 0))
 
 
@@ -192,7 +193,8 @@ def adjacent_equal_layers_merge(c):
         a = c.call(msl.scatcoeffs_multi, A(full[0]), A(full[1]))
         b = c.call(msl.scatcoeffs_multi, A(merged[0]), A(merged[1]))
     _no_division_by_zero(c, a, b)
-    c.ensures("merged-layers-same-coefficients", _same_coefficients(c, a, b))
+    with sym.frac_budget(150):
+        c.ensures("merged-layers-same-coefficients", _same_coefficients(c, a, b))
     if c.symbolic and where == "outer two of three":
         with specfunc_kernels():
             wrong = c.call(msl.scatcoeffs_multi, A([m_other, m]), A([xs[0], xs[1]]))      # the outer layer dropped instead of merged
@@ -212,7 +214,8 @@ def outer_layer_of_medium_index(c):
         shelled = c.call(msl.scatcoeffs_multi, A(ms + [one]), A(xs))
         bare = c.call(msl.scatcoeffs_multi, A(ms), A(xs[:-1]))
     _no_division_by_zero(c, shelled, bare)
-    c.ensures("shell-of-medium-index-is-invisible", _same_coefficients(c, shelled, bare))
+    with sym.frac_budget(150):
+        c.ensures("shell-of-medium-index-is-invisible", _same_coefficients(c, shelled, bare))
     c.canary("coefficients-vanish", c.eq(np.asarray(shelled, dtype=object).reshape(-1)[0] if c.symbolic else 0, 0))
 
 
